@@ -325,6 +325,17 @@ fn extract(log: &str) -> Extracted {
                     push_effect(&mut on, c, S::kv("skip", [S::usize(id)]));
                     canon.push(format!("on {} #{} skip {}", full(&it, c), on.iter().find(|(k, _)| *k == c).unwrap().1.len(), full(&it, id)));
                 }
+                "guard" => {
+                    // the scheduler inspected the state of job `id` (idle = pending, not launched; running; gone) before acting
+                    let id = it.id(v.get(2)?)?;
+                    let st = word(v.get(3)?).to_string();
+                    let Some(c) = current else {
+                        problems.push("guard outside a delivery".to_string());
+                        return Some(());
+                    };
+                    push_effect(&mut on, c, S::kv("g", [S::usize(id), S::atom(st.clone())]));
+                    canon.push(format!("on {} #{} guard {} {}", full(&it, c), on.iter().find(|(k, _)| *k == c).unwrap().1.len(), full(&it, id), st));
+                }
                 "deliver" => {
                     let id = it.id(v.get(2)?)?;
                     current = Some(id);
